@@ -11,6 +11,8 @@ def wordMB : List Nat := [0xe9, 0xc9, 0xfc, 0x3b1, 0x3a9, 0x65e5, 0x672c, 0x663,
 def wsAll : List Nat := [0x20, 0x9, 0xa, 0xb, 0xc, 0xd, 0x85, 0xa0, 0x2003, 0x3000]
 def isWordT (c : Char) : Bool := c.isAlphanum || c == '_' || wordMB.contains c.toNat
 def isWsT (c : Char) : Bool := wsAll.contains c.toNat
+def alphaMB : List Nat := [0xe9, 0xc9, 0xfc, 0x3b1, 0x3a9, 0x65e5, 0x672c, 0x2167, 0x1d4d0]
+def isAlphaT (c : Char) : Bool := c.isAlpha || alphaMB.contains c.toNat
 
 def hexVal (c : Char) : Option Nat :=
   if '0' ≤ c ∧ c ≤ '9' then some (c.toNat - 48)
@@ -108,8 +110,8 @@ def step (doc : Str) (line : String) : Str × String :=
     | some n =>
       let c := Char.ofNat n
       let fs := words impl
-      let m := s!"w={(isWordT c).toNat} s={(isWsT c).toNat} n={c.utf8Size}"
-      (doc, verdict m s!"w={field fs "w"} s={field fs "s"} n={field fs "n"}")
+      let m := s!"w={(isWordT c).toNat} s={(isWsT c).toNat} a={(isAlphaT c).toNat} n={c.utf8Size}"
+      (doc, verdict m s!"w={field fs "w"} s={field fs "s"} a={field fs "a"} n={field fs "n"}")
     | none => (doc, "BADLINE")
   -- helpers: exact correspondence with the model
   | ["o", off] => match off.toNat? with
@@ -166,8 +168,17 @@ def step (doc : Str) (line : String) : Str × String :=
         | none, none =>
           -- model prediction: no word under the cursor ⇒ no hover, no definition, no references
           let noWord := match wordAt isWordT doc l c with | .ok _ => false | _ => true
+          -- model prediction (by value, no accessor): the cursor is among connector parameters iff
+          -- the completions are parameter names only (or none, for an unknown connector)
+          let k := field fs "k"
+          let mk := match complPrefix doc l c with
+            | .ok p => (match connectorCtx isWsT isWordT isAlphaT p with
+              | .ok true => "p" | .ok false => "o" | _ => "panic")
+            | _ => "panic"
           if noWord && (h == "some" || !(d == "none" || d == "skip") || !(r == "none" || r == "skip")) then
             (doc, "DIFF model=no word at this position, so h=none d=none r=none")
+          else if k != "" && k != mk then
+            (doc, s!"DIFF model=connector-parameter context k={mk}")
           else (doc, "ok")
     | _, _ => (doc, "BADLINE")
   | [] => (doc, "")
